@@ -1,6 +1,7 @@
 package asm
 
 import (
+	"errors"
 	"github.com/ohler55/ojg"
 	"github.com/ohler55/ojg/gen"
 	"github.com/ohler55/ojg/internal/vref"
@@ -282,12 +283,23 @@ func VerifC07_Reuse() {
 // VerifC07_Writers: a second write on a reused oj.Writer / sen.Writer or
 // through the pooled package-level functions equals the write on a fresh
 // writer, and strings / Marshal results returned earlier are not altered.
+// failingWriter is an io.Writer whose every Write reports an error.
+type failingWriter struct{}
+
+func (failingWriter) Write(p []byte) (int, error) { return 0, errWriteFailed }
+
+var errWriteFailed = errors.New("write failed")
+
 func VerifC07_Writers() {
-	api := vx.Choose("api", 5)
+	api := vx.Choose("api", 8)
 	s1, s2 := vx.Choose("shape1", numWShapes), vx.Choose("shape2", 3)
-	vx.Key("api", []string{"oj.Writer.JSON", "sen.Writer.SEN", "oj.JSON(pooled)", "oj.Marshal(pooled)", "sen.String(pooled)"}[api])
+	vx.Key("api", []string{"oj.Writer.JSON", "sen.Writer.SEN", "oj.JSON(pooled)", "oj.Marshal(pooled)", "sen.String(pooled)",
+		"oj.Writer.Write(failing writer) then JSON", "sen.Writer.Write(failing writer) then SEN", "oj.Write(pooled, failing writer) then oj.JSON"}[api])
 	vx.Key("shape1", s1)
 	vx.Key("shape2", s2)
+	if api == 7 && (s1 > 3 || s2 != 0) {
+		vx.Assume(false) // the long second document is costly: a few first shapes only
+	}
 	v1 := wTree(s1)
 	// the second value is concrete: what matters is the state the first write left behind
 	v2 := []any{
@@ -320,6 +332,30 @@ func VerifC07_Writers() {
 			b2, _ := oj.Marshal(v2, o)
 			second = string(b2)
 			fresh = (&oj.Writer{Options: *o}).JSON(v2)
+		case 5:
+			// a write that fails (the io.Writer reports an error), then an
+			// in-memory call longer than the WriteLimit
+			w := &oj.Writer{Options: *o}
+			w.WriteLimit = 8
+			_ = w.Write(failingWriter{}, v1)
+			second = w.JSON(v2)
+			fw := &oj.Writer{Options: *o}
+			fw.WriteLimit = 8
+			fresh = fw.JSON(v2)
+		case 6:
+			w := &sen.Writer{Options: *o}
+			w.WriteLimit = 8
+			_ = w.Write(failingWriter{}, v1)
+			second = w.SEN(v2)
+			fw := &sen.Writer{Options: *o}
+			fw.WriteLimit = 8
+			fresh = fw.SEN(v2)
+		case 7:
+			// through the pool, default WriteLimit (1024): the second document is longer
+			big := []any{v2, string(make([]byte, 1500))}
+			_ = oj.Write(failingWriter{}, v1)
+			second = oj.JSON(big)
+			fresh = (&oj.Writer{}).JSON(big)
 		default:
 			first = sen.String(v1, o)
 			second = sen.String(v2, o)
